@@ -270,6 +270,12 @@ def _shape(draw, arcs=False, letters=None, S=None, q=None, rmin=0.0):
     if letters is None:
         letters = draw(_letters(arcs))
     cmds = draw(_args_for(letters, S, q, rmin))
+    zi = next((i for i, (c, _) in enumerate(cmds) if c in "zZ"), None)
+    if zi is not None and draw(st.integers(0, 3)) == 0:
+        # the last drawn edge of the first subpath returns explicitly to its start point before the closepath
+        # (what most exporters write): with decimal coordinates the summed relative offsets miss the start by float
+        # noise, so whatever "snaps" such an end point must do it the same way wherever the shape sits
+        cmds.insert(zi, ["L", [cmds[0][1][0], cmds[0][1][1]]])
     if any(c == "A" for c, _ in cmds):
         # the arc deltas were drawn relative: place absolute arcs at current point + delta
         as_rel = [(("a" if c == "A" else c), tuple(a)) for c, a in cmds]
